@@ -2,6 +2,8 @@
 from engine.anl.origin import fmt, subterms, strip_bb
 from .common import S, co, calls_norm, is_call_term, var_name, render_path, stores_through
 
+from .common import ok_return_blocks as _okret
+
 EXPLANATION = (
     "Static decision of the reload protocol: (R18.1) in CertReloader::reload no path from the first write to any of the four published "
     "fields {tls_acceptor, cert_info, reload_count, last_reload} reaches an error return, and all four writes lie on every path from the "
@@ -48,7 +50,7 @@ def r1_r5_reload(ctx):
         return
     first = firsts[0]
     err_rets = [bi for kind, bi, si, rv in body.defs().get(0, []) if not (kind == "assign" and rv["r"] == "aggregate" and rv["kind"].get("variant") == "Ok")]
-    ok_rets = [bi for kind, bi, si, rv in body.defs().get(0, []) if kind == "assign" and rv["r"] == "aggregate" and rv["kind"].get("variant") == "Ok"]
+    ok_rets = _okret(body, ctx.origins(body))
     after = cfg.reach_after(first)
     bad = [b for b in err_rets if b in after]
     ctx.ob("R18.1", "reload:no-failure-after-first-write", not bad, "src/util/cert_reloader.rs:%s" % body.blocks[first]["tspan"]["line"],
